@@ -119,60 +119,60 @@ Qed.
 
 (* ---------------------------------------------------------------- one column *)
 
-Lemma fmt_value_total dt s : fits dt s -> s <> VVector -> fmt_value dt s <> Exn.
+(* what totality needs of a shown cell: it belongs to the column's dtype (C03) and, in a float
+   column, it is not an int beyond the float range *)
+Definition cell_ok (dt : option dtype) (s : vshape) : Prop :=
+  fits dt s /\ (float_column dt = true -> s <> VIntLike true).
+
+Lemma fmt_value_total dt s : cell_ok dt s -> fmt_value dt s <> Exn.
 Proof.
-  intros Hf Hv. unfold fmt_value. destruct dt as [d|]; [|destruct (is_str s); discriminate].
-  unfold fits in Hf.
-  destruct (dkind d) eqn:Ek; simpl;
+  intros [Hf Hb]. unfold fmt_value. destruct dt as [d|]; [|destruct (is_str s); discriminate].
+  unfold fits in Hf. unfold float_column in Hb.
+  destruct (dkind d) eqn:Ek; simpl in *;
     try (destruct (is_str s); discriminate); try discriminate.
-  - (* float *) destruct s as [[| | |b]| | | | |]; simpl in *; try contradiction; try discriminate;
-      destruct b; discriminate.
+  - (* float *) destruct s as [[| | |b]|[|]| | | |ne]; simpl in *; try contradiction; try discriminate.
+    (* the int beyond the float range *) exfalso. apply Hb; reflexivity.
   - (* date *) destruct s; simpl in *; try contradiction. discriminate.
 Qed.
 
 Lemma fmt_item_total dt p :
-  (forall s, pval p = Some (Some s) -> fits dt s /\ s <> VVector) -> fmt_item dt p <> Exn.
+  (forall s, pval p = Some (Some s) -> cell_ok dt s) -> fmt_item dt p <> Exn.
 Proof.
   intros H. destruct p as [|i [s|]]; simpl; try discriminate.
-  destruct (H s eq_refl) as [Hf Hv].
-  destruct s; simpl; try contradiction;
-    try (pose proof (fmt_value_total dt _ Hf Hv) as Ht;
-         match goal with |- bind ?x _ <> Exn => destruct x; [discriminate|contradiction] end).
-  (* VStr dots *)
-  destruct dots; simpl; [discriminate|].
-  pose proof (fmt_value_total dt _ Hf Hv) as Ht.
-  destruct (fmt_value dt (VStr false)); [discriminate|contradiction].
+  pose proof (fmt_value_total dt s (H s eq_refl)) as Ht.
+  destruct (fmt_value dt s); [discriminate|contradiction].
 Qed.
 
 Lemma format_column_total dt h vals :
-  (forall s, In (Some s) vals -> fits dt s /\ s <> VVector) -> format_column dt h vals <> Exn.
+  (forall s, In (Some s) vals -> cell_ok dt s) -> format_column dt h vals <> Exn.
 Proof.
   intros H. unfold format_column. apply map_res_ok. intros p Hp.
   apply fmt_item_total. intros s Hs. apply H. eapply preview_vals; eassumption.
 Qed.
 
-Lemma fmt_item_row dt p y :
-  (forall v, pval p = Some v -> v <> Some (VStr true)) ->
-  fmt_item dt p = Ret y -> row_of y = prow p.
+Lemma vec_cells_ok v :
+  well_typed_vec v -> float_ints_in_range v -> forall s, In (Some s) (vdata v) -> cell_ok (vdtype v) s.
 Proof.
-  intros Hd H. destruct p as [|i [s|]]; simpl in *.
+  intros Hw Hb s Hs. split; [apply Hw; exact Hs|].
+  intros Hf ->. exact (Hb Hf Hs).
+Qed.
+
+(* a formatted line shows the row of its preview entry: the marker's line comes from the marker
+   only, whatever the data (a cell equal to '...' included) *)
+Lemma fmt_item_row dt p y : fmt_item dt p = Ret y -> row_of y = prow p.
+Proof.
+  intros H. destruct p as [|i [s|]]; simpl in *.
   - inversion H. reflexivity.
-  - destruct (truth_eq_dots s) as [b|] eqn:E; [|discriminate]. simpl in H.
-    destruct b.
-    + exfalso. destruct s; simpl in E; try discriminate. inversion E; subst.
-      apply (Hd (Some (VStr true)) eq_refl). reflexivity.
-    + destruct (fmt_value dt s); [|discriminate]. simpl in H. inversion H. reflexivity.
+  - destruct (fmt_value dt s); [|discriminate]. simpl in H. inversion H. reflexivity.
   - inversion H. reflexivity.
 Qed.
 
 Lemma format_column_rows dt h vals l :
-  format_column dt h vals = Ret l -> ~ In (Some (VStr true)) vals ->
-  map row_of l = expected_rows h (List.length vals).
+  format_column dt h vals = Ret l -> map row_of l = expected_rows h (List.length vals).
 Proof.
-  intros H Hd. rewrite <- preview_rows. unfold format_column in H.
+  intros H. rewrite <- preview_rows. unfold format_column in H.
   eapply map_res_map; [|exact H].
-  intros p y Hp Hy. eapply fmt_item_row; [|exact Hy].
-  intros v Hv Heq. subst v. apply Hd. eapply preview_vals; eassumption.
+  intros p y _ Hy. eapply fmt_item_row. exact Hy.
 Qed.
 
 Lemma format_column_length dt h vals l :
@@ -191,12 +191,11 @@ Proof. destruct o as [[] d|[] d]; simpl; discriminate. Qed.
 (* ---------------------------------------------------------------- vectors *)
 
 Theorem vector_total glob v :
-  well_typed_vec v -> no_vector_elements v -> repr_vector glob v <> Exn.
+  well_typed_vec v -> float_ints_in_range v -> repr_vector glob v <> Exn.
 Proof.
   intros Hw Hn. unfold repr_vector. destruct (vdata v) as [|c t] eqn:Ed; [discriminate|].
   assert (Hc : format_column (vdtype v) (half glob) (c :: t) <> Exn).
-  { apply format_column_total. intros s Hs. rewrite <- Ed in Hs. split; [apply Hw; exact Hs|].
-    intros ->. apply Hn. exact Hs. }
+  { apply format_column_total. intros s Hs. rewrite <- Ed in Hs. apply vec_cells_ok; assumption. }
   destruct (format_column (vdtype v) (half glob) (c :: t)) as [body|]; [|contradiction]. simpl.
   destruct (vname v) as [o|]; simpl; [|discriminate].
   destruct (n_is_empty_str o); simpl; [discriminate|].
@@ -238,10 +237,10 @@ Proof.
 Qed.
 
 Theorem vector_preview glob v hdr body count dt :
-  repr_vector glob v = Ret (VRLines hdr body count dt) -> no_dots_elements v ->
+  repr_vector glob v = Ret (VRLines hdr body count dt) ->
   map row_of body = expected_rows (half glob) (List.length (vdata v)).
 Proof.
-  intros H Hd. apply vector_inv in H. destruct H as [[_ Hr]|[_ [body' [hdr' [Hf [Hr _]]]]]]; [discriminate|].
+  intros H. apply vector_inv in H. destruct H as [[_ Hr]|[_ [body' [hdr' [Hf [Hr _]]]]]]; [discriminate|].
   inversion Hr; subst. eapply format_column_rows; eassumption.
 Qed.
 
@@ -358,7 +357,6 @@ Qed.
 Lemma name_cell_total jd : name_cell jd <> Exn.
 Proof.
   unfold name_cell. destruct (snd jd) as [o|]; simpl; [|discriminate].
-  destruct (n_eq_dots o); [discriminate|].
   pose proof (needs_quote_total o) as H. destruct (needs_quote o); [discriminate|contradiction].
 Qed.
 
@@ -424,11 +422,9 @@ Proof.
   destruct formatted; [|discriminate]. destruct (shown_cols (tcols t)); [contradiction|discriminate].
 Qed.
 
-Definition cell_ok (dt : option dtype) (s : vshape) : Prop := fits dt s /\ s <> VVector.
-
 Theorem table_total glob t :
   rectangular t ->
-  (forall c, In c (tcols t) -> well_typed_vec c /\ no_vector_elements c) ->
+  (forall c, In c (tcols t) -> well_typed_vec c /\ float_ints_in_range c) ->
   repr_table glob t <> Exn.
 Proof.
   intros Hr Hc. unfold repr_table.
@@ -441,8 +437,7 @@ Proof.
   assert (Hf : fmt_shown glob t <> Exn).
   { unfold fmt_shown. apply map_res_ok. intros [j c] Hin. cbn [snd].
     apply shown_cols_in in Hin. destruct Hin as [Hin _]. destruct (Hc c Hin) as [Hw Hn].
-    apply format_column_total. intros s Hs. split; [apply Hw; exact Hs|].
-    intros ->. apply Hn. exact Hs. }
+    apply format_column_total. intros s Hs. apply vec_cells_ok; assumption. }
   destruct (fmt_shown glob t) as [formatted|] eqn:Ef; [|contradiction]. cbn [bind].
   pose proof (display_row_total (truncated_cols (List.length (tcols t))) (shown_cols (tcols t))) as Hd.
   destruct (display_row (truncated_cols (List.length (tcols t))) (shown_cols (tcols t))) as [dr|];
@@ -504,7 +499,7 @@ Qed.
 
 Theorem table_preview glob t disp types body fr fc ft :
   repr_table glob t = Ret (TRTable disp types body fr fc ft) ->
-  rectangular t -> (forall c, In c (tcols t) -> no_dots_elements c) ->
+  rectangular t ->
   exists ls,
     body = (if cols_truncated (t_ncols t)
             then insert_at MAX_HEAD_COLS
@@ -514,7 +509,7 @@ Theorem table_preview glob t disp types body fr fc ft :
     List.length ls = List.length (expected_cols (t_ncols t)) /\
     Forall (fun l => map row_of l = expected_rows (table_half glob t) (t_nrows t)) ls.
 Proof.
-  intros H Hr Hd. apply table_inv in H.
+  intros H Hr. apply table_inv in H.
   destruct H as [[_ Hx]|[[_ Hx]|[Hne [formatted [dr [Hf [_ Hx]]]]]]]; try discriminate.
   inversion Hx; subst. exists formatted.
   pose proof (fmt_shown_lengths _ _ _ Hr Hf) as Hl.
@@ -535,49 +530,41 @@ Proof.
     destruct (Hnth k (j, c) Ejc) as [y [Hy Hfc]]. rewrite Hk in Hy. inversion Hy; subst y.
     cbn [snd] in Hfc.
     apply nth_error_In in Ejc. apply shown_cols_in in Ejc. destruct Ejc as [Hin _].
-    rewrite <- (Hr c Hin). eapply format_column_rows; [exact Hfc|]. apply Hd. exact Hin.
+    rewrite <- (Hr c Hin). eapply format_column_rows. exact Hfc.
 Qed.
 
+(* every cell of the row of names stands for its own column: no name, whatever its text
+   ('...' included), is taken for the hidden-columns cell *)
 Lemma display_cells_spec (shown : list (nat * vec)) r :
-  (forall jc, In jc shown -> name_not_dots (snd jc)) ->
   map_res name_cell (map (fun jc => (fst jc, display_name (snd jc))) shown) = Ret r ->
   r = map (fun jc => HName (fst jc)) shown.
 Proof.
-  intros Hd H.
+  intros H.
   apply (map_res_map name_cell (fun y => y) (fun jd => HName (fst jd))) in H.
   - rewrite map_id in H. rewrite H, map_map. reflexivity.
-  - intros [j d] y Hin Hy. apply in_map_iff in Hin. destruct Hin as [[j' c] [Heq Hin]].
-    simpl in Heq. inversion Heq; subst. unfold name_cell in Hy. cbn [fst snd] in Hy.
-    unfold display_name in Hy. specialize (Hd (j, c) Hin). unfold name_not_dots in Hd. cbn [snd] in Hd.
-    destruct (vname c) as [o|]; simpl in Hy.
-    + assert (Ed : n_eq_dots (n_to_str o) = false).
-      { specialize (Hd o eq_refl). destruct o; simpl in *; exact Hd. }
-      rewrite Ed in Hy. destruct (needs_quote (n_to_str o)); [|discriminate]. simpl in Hy.
-      inversion Hy. reflexivity.
-    + inversion Hy. reflexivity.
+  - intros [j d] y _ Hy. unfold name_cell in Hy. cbn [fst snd] in Hy.
+    destruct d as [o|].
+    + destruct (needs_quote o); [|discriminate]. simpl in Hy. inversion Hy. reflexivity.
+    + simpl in Hy. inversion Hy. reflexivity.
 Qed.
 
 Theorem table_headers glob t disp types body fr fc ft :
   repr_table glob t = Ret (TRTable disp types body fr fc ft) ->
-  (forall j, In j (expected_cols (t_ncols t)) -> name_not_dots (col t j)) ->
   match disp with
   | Some row => row = shown_names t
   | None => forall j, In j (expected_cols (t_ncols t)) -> ~ has_shown_name (col t j)
   end.
 Proof.
-  intros H Hd. apply table_inv in H.
+  intros H. apply table_inv in H.
   destruct H as [[_ Hx]|[[_ Hx]|[Hne [formatted [dr [_ [Hdisp Hx]]]]]]]; try discriminate.
   inversion Hx; subst. clear Hx.
-  assert (Hd' : forall jc, In jc (shown_cols (tcols t)) -> name_not_dots (snd jc)).
-  { intros [j c] Hin. unfold shown_cols in Hin. apply in_map_iff in Hin. destruct Hin as [j' [Heq Hin]].
-    inversion Heq; subst. cbn [snd]. apply Hd. exact Hin. }
   unfold display_row in Hdisp.
   match type of Hdisp with (if ?c then _ else _) = _ => destruct c eqn:Eany end.
   - destruct (map_res name_cell
                (map (fun jc : nat * vec => (fst jc, display_name (snd jc))) (shown_cols (tcols t))))
       as [r|] eqn:Er; [|discriminate].
     cbn [bind] in Hdisp. inversion Hdisp; subst. clear Hdisp.
-    apply display_cells_spec in Er; [|exact Hd']. subst r.
+    apply display_cells_spec in Er. subst r.
     unfold shown_names, shown_cols. rewrite map_map. cbn [fst]. reflexivity.
   - inversion Hdisp; subst. clear Hdisp.
     intros j Hj [o [Ho He]].
@@ -587,10 +574,24 @@ Proof.
       - apply in_map_iff. exists (j, col t j). split; [reflexivity|].
         unfold shown_cols. apply in_map_iff. exists j. split; [reflexivity|exact Hj].
       - cbn [snd]. unfold display_name. rewrite Ho. simpl.
-        specialize (Hd j Hj o Ho).
-        destruct o as [e d|e d]; simpl in *; rewrite He, Hd; reflexivity. }
+        destruct o as [e d|e d]; simpl in *; rewrite He; reflexivity. }
     rewrite Hfalse in Eany. discriminate.
 Qed.
+
+(* ---------------------------------------------------------------- the remaining partiality *)
+
+(* Vector([1.5, 10**400]): a legal <float> vector (C03 lets a float column hold ints); the int is
+   beyond the float range, f"{v:.1f}" converts it with float(v) and raises OverflowError *)
+Definition huge_in_float : vec :=
+  mkVec None (Some (mkD KFloat false)) [Some (VFloat (FFinite false)); Some (VIntLike true)].
+
+Lemma huge_in_float_well_typed : well_typed_vec huge_in_float.
+Proof.
+  intros s Hs. simpl in Hs. destruct Hs as [Hs|[Hs|[]]]; inversion Hs; exact I.
+Qed.
+
+Lemma huge_in_float_raises : repr_vector 12%Z huge_in_float = Exn.
+Proof. reflexivity. Qed.
 
 (* ---------------------------------------------------------------- purity *)
 
